@@ -37,6 +37,7 @@ from runner import Infra
 RULE = ('case = per-host limit M in 1..2(3), max_count, N<=5 client programs of 1..3 rounds over H<=2 host keys '
         '(close / connect-failure / keep-alive, no_wait_release or direct release) x a schedule of task steps, '
         'task.cancel() and remote closes chosen by the seeded scheduler (quick) or enumerated exhaustively over all '
+        'interleavings; plus a keep-alive family over 2-3 host keys where the peer closes connections that sit idle in a pool; '
         'interleavings for tiny N (thorough); non-trivial = at least one client had to wait (condition or drain) or a '
         'fault was injected; distinct by (config, programs, resolved schedule)')
 TRUSTED = ['harness/sched.py DetLoop with pure-Python tasks (one handle per step; handle -> task mapping)',
@@ -159,6 +160,8 @@ class RealRun:
         self.popped = []
         self.events = []
         self.holders = {}         # (key, n) -> set of client ids   (direct oracle)
+        self.dirty = set()        # connections the peer closed after the last completed check-in (direct oracle)
+        self._rel_done_seen = 0
         self.oracle = []          # property failures seen directly on the real objects
         self.cstate = ['start'] * len(self.programs)   # harness-side view for the oracle only
         self.tasks = []
@@ -259,6 +262,7 @@ class RealRun:
                             self._ungrant(i, cid)
                             self.cstate[i] = 'releasing'
                             await compat._ensure(pool.release(conn))
+                            self.dirty.clear()        # a direct check-in has completed
                 except NetworkError:
                     pass
             self.cstate[i] = 'done'
@@ -315,6 +319,15 @@ class RealRun:
         opts = ['s' + n[1:] if n[0] == 'c' else n for n in self.enabled()]
         return opts
 
+    def idle_close_options(self):
+        """Peer closes of connections that sit idle (alive) in a pool."""
+        out = []
+        for key, p in self.pool._host_pools.items():
+            for c in p.ready:
+                if not c.closed():
+                    out.append('q%d-%d' % self.cid_of(c))
+        return sorted(out)
+
     def fault_options(self):
         out = []
         for i, t in enumerate(self.tasks):
@@ -345,9 +358,15 @@ class RealRun:
             w = self.conn_objs[(int(k), int(n))]
             if w._active_connection is not None:
                 w._active_connection.open = False
+            self.dirty.add((int(k), int(n)))
         else:
             raise Infra('bad decision %r' % d)
         self.settle_internal()
+        ndone = sum(1 for t in self.rel_tasks if t.done() and not t.cancelled() and t.exception() is None)
+        if ndone != self._rel_done_seen:
+            # a deferred check-in (ConnectionPool.release) has completed: whatever died before should be swept
+            self._rel_done_seen = ndone
+            self.dirty.clear()
         res = d
         if self.popped:
             res += ':p' + ','.join(str(j) for j in self.popped)
@@ -446,6 +465,19 @@ class RealRun:
                 self.oracle.append(('leak', 'idle-host-kept', 'host pool %s kept with no connection and no waiter; %s' % (key, self.render())))
             if p._lock.locked():
                 self.oracle.append(('leak', 'lock-held', 'host pool lock of %s still held; %s' % (key, self.render())))
+            # idle host = host without a live connection: a dead idle connection may only be one the peer closed
+            # after the last completed check-in (every check-in sweeps all hosts)
+            stale = sorted(self.cid_of(c) for c in p.ready if c.closed() and self.cid_of(c) not in self.dirty)
+            if stale:
+                self.oracle.append(('leak', 'dead-idle-kept',
+                                    'host pool %s kept with dead idle connection(s) %s that died before the last check-in '
+                                    '(count()=%d); %s' % (key, stale, pool.count(), self.render())))
+        live = sum(1 for p in pool._host_pools.values() for c in p.ready if not c.closed())
+        recent = sum(1 for p in pool._host_pools.values() for c in p.ready if c.closed() and self.cid_of(c) in self.dirty)
+        busy = sum(len(p.busy) for p in pool._host_pools.values())
+        if pool.count() != live + recent + busy:
+            self.oracle.append(('leak', 'count', 'count()=%d but %d live idle (+%d just closed by the peer, %d busy); %s'
+                                % (pool.count(), live, recent, busy, self.render())))
         if pool._host_pools_lock.locked():
             self.oracle.append(('leak', 'lock-held', 'host pools lock still held'))
 
@@ -529,6 +561,30 @@ def random_chooser(rng, fault_rate, cancel_share=0.6):
             return None
         return rng.choice(opts)
     return chooser
+
+
+def idle_close_chooser(rng, rate):
+    """No cancellations; the peer closes idle pooled connections (alive, not checked out) at `rate`."""
+    def chooser(run, opts, faults):
+        if not opts:
+            return None
+        if rng.random() < rate:
+            idle = run.idle_close_options()
+            if idle:
+                return rng.choice(idle)
+        return rng.choice(opts)
+    return chooser
+
+
+def gen_keepalive_case(rng):
+    """Several host keys, mostly keep-alive check-ins: the shape in which only the sweep of *other* hosts on every
+    check-in removes connections that died while idle."""
+    h = rng.randint(2, 3)
+    progs = []
+    for _ in range(rng.randint(2, 5)):
+        progs.append([(rng.randrange(h), 1 if rng.random() < 0.1 else 0, 1 if rng.random() < 0.25 else 0)
+                      for _ in range(rng.choice([1, 2, 2, 3]))])
+    return {'M': rng.randint(1, 2), 'max_count': 100, 'programs': progs}
 
 
 def gen_case(rng, nmax=5, hmax=2, mmax=2):
@@ -643,7 +699,7 @@ RealRun.check_oracle = _check
 
 
 # ---- exhaustive enumeration by stateless DFS (every leaf = one full real run)
-def enumerate_all(ctx, case, max_cancels, max_leaves, tags):
+def enumerate_all(ctx, case, max_cancels, max_leaves, tags, max_idle_closes=0):
     """All interleavings of the task steps of `case` (+ up to max_cancels cancellations at every point)."""
     stack = [[]]
     leaves = 0
@@ -661,6 +717,8 @@ def enumerate_all(ctx, case, max_cancels, max_leaves, tags):
             choices = list(opts)
             if used < max_cancels:
                 choices += [f for f in faults if f[0] == 'x' and not run.creq_pending(int(f[1:]))]
+            if opts and sum(1 for d in run.log if d[0] == 'q') < max_idle_closes:
+                choices += run.idle_close_options()
             if not opts:
                 return None        # the loop is dry: a leaf
             record.append((i, choices))
@@ -740,6 +798,14 @@ def run(ctx):
     fulls = run_batch(ctx, items, tags=['sampled'])
     if fulls:
         ctx.sample({'M': fulls[0]['M'], 'programs': fulls[0]['programs'], 'resolved_schedule': fulls[0]['resolved']})
+    # peer closes of idle pooled connections between keep-alive check-ins over several hosts
+    items = []
+    for i in range(ctx.scale(1200, 12000)):
+        items.append((gen_keepalive_case(rng), idle_close_chooser(random_sub(rng), rng.choice([0.1, 0.2, 0.35]))))
+        if len(items) >= 500:
+            run_batch(ctx, items, tags=['idle-close'])
+            items = []
+    run_batch(ctx, items, tags=['idle-close'])
     # exhaustive interleavings of tiny configurations
     tiny = [
         ({'M': 1, 'max_count': 100, 'programs': [[(0, 0, 0)], [(0, 0, 0)]]}, 1),
@@ -759,14 +825,21 @@ def run(ctx):
             ({'M': 1, 'max_count': 100, 'programs': [[(0, 0, 0)], [(0, 1, 0)], [(0, 0, 1)]]}, 1),
             ({'M': 1, 'max_count': 100, 'programs': [[(0, 1, 0), (0, 0, 0)], [(0, 0, 0)]]}, 2),
         ]
+    # two host keys, every placement of one (thorough: two) peer close(s) of an idle pooled connection
+    tiny_idle = [({'M': 1, 'max_count': 100, 'programs': [[(0, 0, 0)], [(1, 0, 0)]]}, 0, 1)]
+    if thorough:
+        tiny_idle += [({'M': 1, 'max_count': 100, 'programs': [[(0, 0, 0)], [(1, 0, 0), (1, 0, 1)]]}, 0, 2),
+                      ({'M': 2, 'max_count': 100, 'programs': [[(0, 0, 0)], [(1, 0, 0)], [(0, 0, 1)]]}, 0, 1),
+                      ({'M': 1, 'max_count': 100, 'programs': [[(0, 0, 0)], [(1, 0, 0)]]}, 1, 1)]
     total, all_complete = 0, True
-    for case, ncancel in tiny:
-        leaves, complete = enumerate_all(ctx, case, ncancel, ctx.scale(1500, 60000), tags=['exhaustive'])
+    for case, ncancel, nidle in [(c, n, 0) for c, n in tiny] + tiny_idle:
+        leaves, complete = enumerate_all(ctx, case, ncancel, ctx.scale(1500, 60000), tags=['exhaustive'],
+                                         max_idle_closes=nidle)
         total += leaves
         all_complete = all_complete and complete
     ctx.exhaustive = all_complete
-    ctx.note('exhaustive', {'configurations': len(tiny), 'interleavings': total, 'all_enumerated': all_complete,
-                            'what': 'every order of task steps (and, where listed, every placement of up to k task.cancel() calls) '
+    ctx.note('exhaustive', {'configurations': len(tiny) + len(tiny_idle), 'interleavings': total, 'all_enumerated': all_complete,
+                            'what': 'every order of task steps (and, where listed, every placement of up to k task.cancel() calls / peer closes of idle pooled connections) '
                                     'of the tiny configurations, each run on the real pool and replayed by the model'})
     ctx.note('granularity', 'per-step: after every decision the complete real pool state (host pools, ready, busy, condition '
                             'waiters with notified/cancelled marks, waiter counts, lock states, task states, release-task set, '
